@@ -20,6 +20,7 @@ type c01Prog struct {
 	name  string
 	funcs []*gfunc
 	src   string
+	plain bool
 }
 
 func c01ProgSx(p c01Prog) string {
@@ -137,7 +138,7 @@ func vC01(seed int64, count int, extra []string) {
 		for _, f := range fs {
 			sb.WriteString(f.src(l, nil) + "\n")
 		}
-		progs = append(progs, c01Prog{name, fs, sb.String()})
+		progs = append(progs, c01Prog{name: name, funcs: fs, src: sb.String(), plain: l.plain})
 		for k, v := range g.feat {
 			vstats["feature."+k] += v
 		}
